@@ -51,10 +51,10 @@ CHECKS["C03"] = {
             "extension, other variant's lengths, bit flips, field edits incl. q-1/q/q+1/16383 and the reserved secret-key "
             "pattern, all-zero/all-one bodies), every length 0..2400 x 8 headers, each string fed to all three decoders of the "
             "variant; for verify: the cursor sweep of C07 at production sizes under four public keys (honest, zero, all q-1, "
-            "random), bit-flipped honest signatures, sparse random bodies. distinct_nontrivial = distinct (variant, decoder, "
+            "random), bit-flipped honest signatures, sparse random bodies; (hash-extremes) verify on (salt, message) pairs whose hash stream rejects unusually many chunks (selected with the reference hash from 6e6 candidates). distinct_nontrivial = distinct (variant, decoder, "
             "mutation family, outcome) cells + distinct (variant, public key, cursor cell) cells.",
     "assumptions": ["a panic is the only failure mode of safe Rust here (no unsafe in the crate); allocation failure is not exercised"],
-    "legs": [{"name": "decoders", "profiles": BOTH}, {"name": "verify-hostile", "profiles": BOTH},
+    "legs": [{"name": "decoders", "profiles": BOTH}, {"name": "verify-hostile", "profiles": BOTH}, {"name": "hash-extremes", "profiles": BOTH},
              {"name": "miri-decode", "external": "miri", "tiers": ["thorough"], "shards": [["decode", i, 16] for i in range(16)]},
              {"name": "fuzz", "external": "fuzz", "tiers": ["thorough"], "seconds": 180}],
     "technique": "panic monitor (sanitizer for safe Rust) over structure-aware hostile inputs on release and overflow-checked builds; Miri leg in the thorough tier",
@@ -137,7 +137,7 @@ CHECKS["C09"] = {
             "must satisfy sigma_min <= sigma' <= 1.8205; pooled first and second moments of (z-mu)/sigma'. Blocks and totality run "
             "on the release and the overflow-checked build. distinct_nontrivial = distinct threshold points + 7-byte ties + "
             "(config, stream, iteration) cells + distribution configs + instrumented signatures.",
-    "assumptions": ["RCDT and ApproxExp constants transcribed from PQClean (sanity-checked against the f64 half-Gaussian on every run)", "statistical resolution about 1e-3 relative on cells of mass >= 1e-5 in the quick tier"],
+    "assumptions": ["RCDT and ApproxExp constants transcribed from PQClean (sanity-checked against the f64 half-Gaussian on every run)", "statistical resolution about 1e-3 relative on cells of mass >= 1e-5 in the quick tier", "centres are taken from |mu| <= 2e4 (the sampler returns an i16; signing uses centres of a few thousand)"],
     "legs": [{"name": "blocks", "profiles": BOTH}, {"name": "totality", "profiles": BOTH}, {"name": "distribution"}, {"name": "in-situ", "skip_if_violated": True}],
     "technique": "exact differential monitors for the building blocks, panic + logical-step progress monitor under hostile byte streams, goodness-of-fit monitors (chi-square, moments) with alarm thresholds below 1e-6 family-wise, in-situ precondition monitor at a hook",
     "level_text": "Blocks are compared exactly on boundary and random inputs; the distribution is decided statistically with stated resolution; tails are covered only by the exact block monitors.",
@@ -227,10 +227,12 @@ CHECKS["C14"] = {
             "136-byte rate, 4 KiB, 64 KiB, 1 MiB (16 MiB thorough), and a search leg over counter strings that keeps going until "
             "the reference's 16-bit chunk stream has contained the exact boundary values 61444 (largest accepted), 61445 (smallest "
             "rejected), 65535, 12288, 12289 at least 100 times each. Also: every coefficient in [0,q), two calls agree, the 512 "
-            "point is the prefix of the 1024 point. distinct_nontrivial = lengths + long inputs + inputs whose stream contained a "
+            "point is the prefix of the 1024 point. Second leg (extremes): 6e6 (1.2e8 thorough) candidate inputs are scanned with the "
+            "REFERENCE only and the 3000 (60000) whose stream rejects the most chunks early are hashed by the real code - inputs "
+            "that stress buffering / refill logic, which typical inputs never do. distinct_nontrivial = lengths + long inputs + inputs whose stream contained a "
             "boundary chunk.",
     "assumptions": ["own SHAKE-256 (self-tested against OpenSSL-generated known answers)"],
-    "legs": [{"name": "differential"}],
+    "legs": [{"name": "differential"}, {"name": "extremes"}],
     "technique": "differential monitor against an independent SHAKE-256 + Algorithm 3 with boundary-chunk coverage counters",
     "level_text": "Sampled over inputs; the rejection threshold is exercised at its exact boundary hundreds of times per run.",
     "level_note": "inputs not generated are not covered",
@@ -241,7 +243,7 @@ CHECKS["C08"] = {
     "rule": "Offline history checker over recorded salts (bytes 1..41 of to_bytes()) of the REAL thread_rng path (no RNG override "
             "installed). Histories: 16 threads behind a barrier signing the same message under one key, distinct messages, and a "
             "second key, for both variants; 1600 (20000 thorough) short-lived threads signing once or twice each (thread-per-request "
-            "pattern); K child processes started together signing the same (message, key); the same message twice back to back; and "
+            "pattern); a few hundred signatures forced through the compression-retry path by the failpoint (real randomness); K child processes started together signing the same (message, key); the same message twice back to back; and "
             "a history produced by a build of falcon-rust WITHOUT the verif-hooks feature through the public API only. Checks per "
             "history and on the union: no salt occurs twice (hash map, witness = the two calls), every one of the 40 byte positions "
             "takes >= 32 distinct values, each of the 320 bits is balanced within 6 sigma, no two calls return byte-identical "
